@@ -354,6 +354,13 @@ def d125():
     return None if got == [[-3, 5, 1], [-5, -3, 1], [3, -5, 1]] else f"rotate90 of an int64 field (5,3,1) for k=1,2,3: {got}"
 
 
+def d130():
+    mesh = df.Mesh(p1=0.0, p2=5.0, n=5)
+    f = df.Field(mesh, nvdim=1, value=np.array([100, 90, 50, 7, 3], dtype=np.uint8).reshape(5, 1), dtype=np.uint8)
+    got = f.diff("x", order=2).array[:, 0].tolist()
+    return None if got == [-57.0, -30.0, -3.0, 39.0, 81.0] else f"second derivative of uint8 [100,90,50,7,3]: {got}"
+
+
 ALL = {
     "D1": ("C13", d1), "D2": ("C13", d2), "D3": ("C12", d3), "D4": ("C12", d4),
     "D5": ("C08", d5), "D6": ("C08", d6), "D7": ("C08", d7), "D8": ("C03", d8),
@@ -361,7 +368,7 @@ ALL = {
     "D14": ("C09", d14), "D15": ("C09", d15), "D16": ("C11", d16), "D20": ("C19", d20), "D21": ("C13", d21), "D22": ("C08", d22), "D23": ("C03", d23), "D31": ("C10", d31), "D41": ("C02", d41), "D43": ("C02", d43), "D44": ("C02", d44),
     "D101": ("C01", d101), "D111": ("C08", d111), "D113": ("C13", d113), "D114": ("C12", d114),
     "D45": ("C02", d45), "D46": ("C02", d46),
-    "D123": ("C04", d123), "D124": ("C01", d124), "D58": ("C13", d58), "D125": ("C12", d125),
+    "D123": ("C04", d123), "D124": ("C01", d124), "D58": ("C13", d58), "D125": ("C12", d125), "D130": ("C04", d130),
 }
 
 
